@@ -160,6 +160,46 @@ def unit_vectors(model, sizes):
     return recs
 
 
+def unit_foreign_native():
+    """every ordered pair (host model, foreign model), natively, on the imported package: a foreign
+    model's rating anywhere in the teams is rejected with TypeError/ValueError by rate and the three
+    predictions, and nothing is modified.  Type-level facts (class identity / inheritance between the
+    five modules) do not depend on numeric values, so concrete ratings decide them."""
+    import importlib
+    from ..concrete import MODEL_MODULES
+    recs = []
+    mods = {m: importlib.import_module(MODEL_MODULES[m]) for m in extract.MODELS}
+    for host in extract.MODELS:
+        H = getattr(mods[host], host)
+        HR = getattr(mods[host], host + "Rating")
+        for other in extract.MODELS:
+            if other == host:
+                continue
+            OR = getattr(mods[other], other + "Rating")
+            bad = []
+            for op in ("rate",) + PREDICTS:
+                for pos in ((0, 0), (1, 1)):
+                    m = H()
+                    teams = [[HR(25.0, 8.0)], [HR(24.0, 7.0), HR(23.0, 6.0)]]
+                    f = OR(22.0, 5.0)
+                    teams[pos[0]][pos[1]] = f
+                    before = [(id(p), dict(p.__dict__)) for t in teams for p in t] + [dict(m.__dict__)]
+                    try:
+                        getattr(m, op)(teams)
+                        bad.append(f"{op}{pos}: accepted")
+                    except (TypeError, ValueError):
+                        pass
+                    except Exception as e:  # noqa: BLE001
+                        bad.append(f"{op}{pos}: {type(e).__name__}")
+                    after = [(id(p), dict(p.__dict__)) for t in teams for p in t] + [dict(m.__dict__)]
+                    if after != before:
+                        bad.append(f"{op}{pos}: modified something")
+            recs.append(driver.rec(f"C13/{host}/rejects-ratings-of[{other}]", "discharged" if not bad else "refuted", "native", 0,
+                                   fn=f"{host}._check_teams", unbounded=True, note="; ".join(bad)[:200],
+                                   replay=None if not bad else {"kind": "c13_foreign_native", "host": host, "other": other}))
+    return recs
+
+
 def unit_foreign(model):
     """ratings of each of the other four models (real classes) are rejected"""
     import importlib
@@ -353,7 +393,7 @@ def _merge_canaries_open(recs):
 
 
 def units(tier):
-    us = []
+    us = [("unit_foreign_native", ())]
     mt, ms = (3, 2) if tier == "quick" else (4, 2)
     for m in extract.MODELS:
         for op in ("rate",) + PREDICTS:
@@ -382,5 +422,5 @@ def main(tier, seed):
         explanation=("The real rate/predict_* of each model (real _check_teams, real validation prefix and the real rest of the body) are executed on every sentence of the argument grammar; each path's exit is proved to be a normal return exactly when the arguments are well-formed per the property, "
                      "a TypeError/ValueError otherwise and never another exception class, and at every rejecting exit the heap (all ratings reachable from the arguments, the model) equals the entry snapshot. Foreign ratings are additionally real instances of the other four rating classes. "
                      "Complete per container-length shape, bounded over lengths (an unbounded loop-invariant proof of _check_teams is future work)."),
-        shapes=[u[1][1:] if u[0] != "unit_foreign" else "foreign" for u in units(tier)][:12],
+        shapes=[str(u[1][1:]) for u in units(tier) if u[0] in ("unit_teams", "unit_vectors")][:12],
     )
